@@ -69,6 +69,10 @@ func (vm *Type) Run(retResult bool) (value.Type, error) {
 	freeList := list.New()
 
 	for ip < len(*cs) {
+		if verifEnabled && VerifStep != nil {
+			VerifStep()
+		}
+
 		instr := (*cs)[ip]
 
 		// TODO allow tracing flag
